@@ -879,6 +879,13 @@ func (p CPath) onlyWrittenInView(addr ssa.Value) bool {
 // failedErrors: the module calls on the path whose error result the path found non-nil (took
 // the `err != nil` arm, or the false arm of `err == nil`).
 func (p CPath) failedErrors(inModule func(*ssa.Function) bool, modPath string) []*ssa.Call {
+	return p.failedErrorsOpt(inModule, modPath, false)
+}
+
+// failedErrorsOpt with strict set does not excuse a failure that is followed by another
+// exchange: for code in which nothing may be skipped (the SDR walk — a record whose read
+// failed must not be left out of a repository reported as complete).
+func (p CPath) failedErrorsOpt(inModule func(*ssa.Function) bool, modPath string, strict bool) []*ssa.Call {
 	occs := p.OccsPos()
 	rels := p.relationsPos(occs)
 	var out []*ssa.Call
@@ -976,7 +983,7 @@ func (p CPath) failedErrors(inModule func(*ssa.Function) bool, modPath string) [
 	// a failure followed by another exchange on the path is a fallback or a retry: what the
 	// path reports is owed to the later call, which is judged in its turn
 	for k, ec := range all {
-		if ec.failed && k == len(all)-1 {
+		if ec.failed && (strict || k == len(all)-1) {
 			out = append(out, ec.call)
 		}
 	}
@@ -986,4 +993,34 @@ func (p CPath) failedErrors(inModule func(*ssa.Function) bool, modPath string) [
 type errCall struct {
 	call   *ssa.Call
 	failed bool
+}
+
+// nilFound: what the path found when it last compared v (or something that resolves to v
+// through locals, named results and the results of spliced helpers) with nil — 1 non-nil,
+// 0 nil, -1 never compared.
+func (p CPath) nilFound(v ssa.Value) int {
+	occs := p.OccsPos()
+	rels := p.relationsPos(occs)
+	out, at := -1, -1
+	for _, rel := range rels {
+		if rel.Op != token.EQL && rel.Op != token.NEQ {
+			continue
+		}
+		for _, pr := range [][2]ssa.Value{{rel.X, rel.Y}, {rel.Y, rel.X}} {
+			if !isNilConst(pr[1]) {
+				continue
+			}
+			if pr[0] == v || p.Upto(occs[rel.At].Seg).resolvesThrough(rel.Ctx, pr[0], v) {
+				if rel.At >= at {
+					at = rel.At
+					if rel.Op == token.NEQ {
+						out = 1
+					} else {
+						out = 0
+					}
+				}
+			}
+		}
+	}
+	return out
 }
